@@ -28,6 +28,7 @@ Lemma nocross_wider_example :
     (* the bind of unMap is sent while controller 5 is pending *)
     snd (run cross_ports world0 (firstn 9 answered_pending_history)) = Some w9 /\
     psize (pending (wr w9)) = 1 /\
+    pending_of (firstn 9 answered_pending_history) (firstn 9 tr) = [5] /\
     nth_error tr 9 = Some [OB] /\
     (* 5 drives p0, 6 drives nothing any more *)
     assigned_targets 5 tr = [(0, true)] /\
